@@ -79,7 +79,7 @@ def _gen(c: Cond, path: str) -> None:
                                   func=c.func, call=call))
 
 
-_CALL_RE = re.compile(r"when calling (cond|twin)\((.*)\)\s*$")
+_CALL_RE = re.compile(r"when calling (cond|twin)\((.*?)\)(?: with (crosshair\.patch_to_return\(.*\)))?\s*$")
 
 
 def _parse_args(argstr: str) -> Optional[Dict[str, Any]]:
@@ -112,6 +112,8 @@ def _parse_output(text: str) -> Dict[str, Dict[str, Any]]:
         if mm:
             which = mm.group(1)
             mcall = _parse_args(mm.group(2))
+            if mcall is not None and mm.group(3):
+                mcall["patch"] = mm.group(3)
         rec: Dict[str, Any] = {"line": lineno, "msg": msg}
         if level == "info" and msg.startswith("Confirmed over all paths"):
             rec["kind"] = "confirmed"
@@ -157,7 +159,14 @@ def replay_native(module: str, func: str, shape: Dict[str, Any], call: Dict[str,
         f"import {module} as H\n"
         f"kw = {kwargs!r}\n"
         "out = {}\n"
+        "import contextlib\n"
+        f"patch = {call.get('patch')!r}\n"
+        "ctx = contextlib.nullcontext()\n"
+        "if patch:\n"
+        "    import crosshair, _random, random\n"
+        "    ctx = eval(patch)\n"
         "try:\n"
+        "  with ctx:\n"
         f"    r = H.{func}(**kw)\n"
         "    out['ok'] = bool(r is True)\n"
         "    out['ret'] = repr(r)\n"
@@ -218,7 +227,8 @@ def run_cond(c: Cond, wd: str, idx: int) -> Obligation:
             return ob
         rp = replay_native(c.module, c.func, c.shape, ob.cex, [n for n, _ in c.sym], c.excl)
         ob.replayed = (rp.get("ok") is False)
-        ob.cex = {"call": f"{c.module}.{c.func}", "kwargs": rp.get("kwargs"), "native": {k: rp.get(k) for k in ("ret", "exc", "last")}}
+        ob.cex = {"call": f"{c.module}.{c.func}", "kwargs": rp.get("kwargs"), "native": {k: rp.get(k) for k in ("ret", "exc", "last")},
+                  **({"patch": ob.cex["patch"]} if isinstance(ob.cex, dict) and ob.cex.get("patch") else {})}
         ob.finding = rp.get("site")
         ob.detail = (rp.get("exc") or rp.get("last") or ob.detail)[:400]
         return ob
